@@ -11,7 +11,7 @@ package parser
 //@   nosafety
 //@   opt callback.LexToken=pure
 //@   requires parser != nil
-//@   assigns class:parser.Parser
+//@   assigns class:parser.Parser.PrevEnd, class:parser.Parser.Token
 //@   ensures parser.PrevEnd == old(parser.Token.End)
 //@   ensures result != nil ==> parser.Token == old(parser.Token)
 //@   at call LexToken: assert arg0 == parser.Token.End
@@ -27,7 +27,7 @@ package parser
 //@   props C03
 //@   nosafety
 //@   requires parser != nil
-//@   assigns class:parser.Parser
+//@   assigns class:parser.Parser.PrevEnd, class:parser.Parser.Token
 //@   ensures result0 <==> old(parser.Token.Kind) == Kind
 //@   ensures !result0 ==> result1 == nil && parser.Token == old(parser.Token) && parser.PrevEnd == old(parser.PrevEnd)
 //@   ensures result0 ==> parser.PrevEnd == old(parser.Token.End)
@@ -35,8 +35,8 @@ package parser
 //@ func expect
 //@   props C03 C18
 //@   nosafety
-//@   requires parser != nil && parser.Source != nil && 0 <= parser.Token.Start
-//@   assigns class:parser.Parser
+//@   requires parser != nil && parser.Source != nil
+//@   assigns class:parser.Parser.PrevEnd, class:parser.Parser.Token
 //@   ensures result0 == old(parser.Token)
 //@   ensures old(parser.Token.Kind) != kind ==> result1 != nil && parser.Token == old(parser.Token) && parser.PrevEnd == old(parser.PrevEnd)
 //@   ensures old(parser.Token.Kind) == kind ==> parser.PrevEnd == old(parser.Token.End)
@@ -45,8 +45,8 @@ package parser
 //@ func expectKeyWord
 //@   props C03 C18
 //@   nosafety
-//@   requires parser != nil && parser.Source != nil && 0 <= parser.Token.Start
-//@   assigns class:parser.Parser
+//@   requires parser != nil && parser.Source != nil
+//@   assigns class:parser.Parser.PrevEnd, class:parser.Parser.Token
 //@   ensures result0 == old(parser.Token)
 //@   ensures result1 == nil ==> old(parser.Token.Kind) == lexer.NAME && old(parser.Token.Value) == value
 //@   ensures !(old(parser.Token.Kind) == lexer.NAME && old(parser.Token.Value) == value) ==> result1 != nil && parser.Token == old(parser.Token)
@@ -55,7 +55,7 @@ package parser
 //@ func unexpected
 //@   props C03 C18
 //@   nosafety
-//@   requires parser != nil && parser.Source != nil && 0 <= parser.Token.Start && 0 <= atToken.Start
+//@   requires parser != nil && parser.Source != nil
 //@   assigns nothing
 //@   ensures result != nil
 //@   at[C18] call NewSyntaxError: assert arg1 == atToken.Start || arg1 == parser.Token.Start
@@ -70,7 +70,7 @@ package parser
 //@ func parseName
 //@   props C03
 //@   nosafety
-//@   requires parser != nil
+//@   requires parser != nil && parser.Source != nil
 //@   ensures result1 == nil ==> result0 != nil && old(parser.Token.Kind) == lexer.NAME && result0.Value == old(parser.Token.Value)
 //@   ensures old(parser.Token.Kind) != lexer.NAME ==> result1 != nil
 //@   ensures result1 == nil && result0.Loc != nil ==> result0.Loc.Start == old(parser.Token.Start) && result0.Loc.End == old(parser.Token.End)
@@ -78,7 +78,7 @@ package parser
 //@ func parseNamed
 //@   props C03
 //@   nosafety
-//@   requires parser != nil
+//@   requires parser != nil && parser.Source != nil
 //@   ensures result1 == nil ==> result0 != nil && old(parser.Token.Kind) == lexer.NAME && result0.Name != nil
 //@   ensures old(parser.Token.Kind) != lexer.NAME ==> result1 != nil
 
@@ -86,7 +86,7 @@ package parser
 //@ func parseType
 //@   props C03 C09
 //@   nosafety
-//@   requires parser != nil
+//@   requires parser != nil && parser.Source != nil
 //@   ensures err == nil ==> ttype != nil
 //@   ensures old(parser.Token.Kind) != lexer.BRACKET_L && old(parser.Token.Kind) != lexer.NAME ==> err != nil
 //@   at call expect: assert arg1 == lexer.BRACKET_R
